@@ -95,6 +95,12 @@ def cases(tier, seed):
             for oname in ('cse=False', 'sympy-symbols', 'cse=False+sympy', 'wrapper=closure'):
                 for ka in (biv, biv[:3], [biv[0], biv[-1]]):
                     out.append(dict(kind='unary', base=base, opt=oname, op='outertan', ka=list(ka)))
+    # graded mode with SYMPY coefficients (the zero filter) and user-level filter(): chains of operations
+    for base in (dict(p=2), dict(p=3), dict(p=2, r=1), dict(p=1, r=1), dict(p=1, q=1, r=1), dict(p=3, r=1)):
+        for chain in GRADED_CHAINS:
+            if chain == 'sandwich' and sum(base.values()) > 3:
+                continue
+            out.append(dict(kind='graded-chain', base=base, chain=chain))
     return out
 
 
@@ -146,12 +152,64 @@ def _graded_sweep(tier):
     return out
 
 
+GRADED_CHAINS = {
+    'wedge-then-ops': "B = a ^ E1; r = [B ^ c, B | c, B.lc(c), B * c, B.cp(c), B + c]",
+    'product-chain': "r = [((x_ * E1) * (y_ * E2)) * c, (a * c) * a, ~(a * c) * c]",
+    'filter': "v = A.vector([0] + list(a.values())[1:]); r = [v.filter() * v.filter(), v.filter() + c.grade(1), v.filter().dual() if not A.r else v.filter().hodge()]",
+    'duals': "v = A.vector([0] + list(a.values())[1:]); r = [v.hodge().unhodge(), v.dual().undual() if A.r <= 1 else v.hodge()]",
+    'sandwich': "r = [(a * c) >> a, a @ (a ^ c), (a * c) / c]",
+}
+
+
+def _run_graded_chain(desc, V):
+    """chains of operations with SYMPY coefficients in a graded algebra: every step succeeds, every result stores complete grades and
+    evaluates (symbols replaced by solver terms) to what the default-mode algebra computes on those terms."""
+    import sympy
+    from .. import sy2z3
+    from kingdon.multivector import MultiVector
+    base = desc['base']
+    G = make_alg(dict(base, graded=True))
+    D = make_alg(base)
+    d = G.d
+    names_a = [f'a{i}' for i in range(d)]
+    names_c = [f'c{i}' for i in range(2 ** d)]
+    env = {n: V.var(n) for n in names_a + names_c + ['x_', 'y_']}
+    claims = [Note('nontrivial', '')]
+
+    def build(A, sym_):
+        mk = (lambda n: sympy.Symbol(n)) if sym_ else (lambda n: env[n])
+        a = A.vector([mk(n) for n in names_a])
+        c = A.multivector([mk(n) for n in names_c])
+        ns = dict(A=A, a=a, c=c, E1=A.blades[A.bin2canon[1]], E2=A.blades[A.bin2canon[2]] if d >= 2 else A.blades[A.bin2canon[1]], x_=mk('x_'), y_=mk('y_'))
+        exec(GRADED_CHAINS[desc['chain']], ns)
+        return ns['r']
+    fkey = f'graded-chain|{desc["chain"]}'
+    try:
+        want = build(D, False)
+    except ZeroDivisionError:
+        return [Eq('void', 1, 1)]
+    try:
+        got = build(G, True)
+    except ZeroDivisionError:
+        return [Eq('void', 1, 1)]
+    except Exception as e:  # noqa
+        return [Fail('graded-chain:raises', f'{desc["chain"]} in graded mode with sympy coefficients raised {type(e).__name__}: {str(e)[:120]} (the default mode returns)', fkey=fkey + '|raises')]
+    for i, (g, w) in enumerate(zip(got, want)):
+        if not _complete_grades(G, g.keys()):
+            claims.append(Fail(f'graded-chain[{i}]:incomplete', f'{desc["chain"]}: result {i} stores keys {tuple(g.keys())}: not complete grades', fkey=fkey + '|incomplete-grades'))
+        gv = {k: sy2z3.to_value(v, env) for k, v in coeffs(g).items()}
+        claims += eq_claims(f'graded-chain[{i}]', gv, coeffs(w), fkey=fkey + '|value')
+    return claims
+
+
 def _complete_grades(alg, keys):
     gs = tuple(sorted({popcount(k) for k in keys}))
     return set(keys) == set(alg.indices_for_grades[gs])
 
 
 def run_case(desc, V):
+    if desc['kind'] == 'graded-chain':
+        return _run_graded_chain(desc, V)
     base_cfg = desc['base']
     opt_cfg = dict(base_cfg, **OPTIONS[desc['opt']])
     A0 = get_alg(base_cfg)
